@@ -14,8 +14,10 @@ LEVEL = "proof"
 MATCHERS: Dict[str, Any] = {}
 TRUSTED = [
     "Lean 4.33.0 kernel", "axioms: propext, Classical.choice, Quot.sound only (audited by #print axioms)",
-    "harness/parser_corr.py: writes the definition trees, runs the real Parser.parse, tells the model which file every "
-    "import string denotes (the file system resolves the strings on the implementation side)",
+    "harness/parser_corr.py: writes the definition trees, runs the real Parser.parse, describes the file system it built "
+    "(resolved file paths, directories, links) and the import texts as written; the MODEL resolves the texts (Model/ImportPath.lean)",
+    "CPython's re / pathlib / os.path.realpath only as the reference the models of the reserved-entry pattern and of path "
+    "resolution are compared with on every run",
     "ruamel.yaml as the reader of the shipped core_defs/*.yaml for the model side",
 ]
 
@@ -150,11 +152,11 @@ def run(res: C.Result, deep: bool):
                 "pattern's alphabet, ints, bools, floats, lists — through the real re.search with the pattern read from the source and the "
                 "real handle_reserve, against the regex model, the scan and expandEntry; \\s and [0-9] over all 1,112,064 code points; "
                 "corpus; directed (every range boundary x core on/off x file named core_defs.yaml or not; conflicts with the "
-                "shipped core definitions; one file through five path spellings); every import relation (self imports, cycles, "
+                "shipped core definitions; one file through twelve path spellings x four ways of naming the root; every kind of import that is not a definition file); every import relation (self imports, cycles, "
                 "diamonds, repeats) on <= 2 files x every planted conflict pair (36 name-kind pairs, 49 message-id pairs over "
                 "message/signal/reserved-int/reserved-range writings, module/host id and name, metadata) x every pair of "
                 "placements%s; all 512 import relations on 3 files conflict-free + %d seeded planted conflicts each; seeded random "
-                "trees of 1-6 files in sub-directories with rel/./abs/../symlink import spellings, repeated imports, shuffled "
+                "trees of 1-6 files in sub-directories with 12 import spellings (rel, ./, abs, ../dir/, symlink, nosuch/../, //, abs with /../, //abs, file.yaml/../, trailing /., up to / and down), repeated imports, shuffled "
                 "section order, comments, small or large name/id pools, reserved ranges in 9 writings; malformed stream (bad "
                 "names, non-int ids, bad reserved entries, empty files, missing/dir/.txt imports, repeated keys, files named "
                 "core_defs.yaml). A case is non-trivial when it has >= 2 files or is rejected; distinct by the case JSON."
